@@ -102,6 +102,7 @@ func TestWorker(t *testing.T) {
 	if v := envInt("VERIF_MAXSTEPS", 0); v > 0 {
 		MaxSteps = v
 	}
+	rt.Paranoid = os.Getenv("VERIF_PARANOID") == "1"
 	switch mode {
 	case "search":
 		workerSearch(t, prop, tier)
